@@ -7,7 +7,7 @@ PATCH=$(realpath "$1"); shift
 W=$(mktemp -d /var/tmp/ps-mut-XXXXXX)
 git -C /repo worktree add -q --detach "$W" HEAD || exit 2
 trap 'git -C /repo worktree remove --force "$W" 2>/dev/null; rm -rf "$W" /verif/build/$(echo "$W" | sed "s/[^A-Za-z0-9]/_/g")' EXIT
-if ! git -C "$W" apply "$PATCH"; then echo "PATCH-DOES-NOT-APPLY"; exit 2; fi
+if ! git -C "$W" apply --unidiff-zero --whitespace=nowarn "$PATCH"; then echo "PATCH-DOES-NOT-APPLY"; exit 2; fi
 for id in "$@"; do
   VERIF_REPO="$W" python3 /verif/checks/run.py "$id" "${TIER:-quick}" 2>&1 | grep -E "^(VIOLATION|KNOWN-FINDING|HARNESS-ERROR|C[0-9]+ (quick|thorough):)" | cut -c1-300 | head -8
   echo "== $id exit=${PIPESTATUS[0]}"
